@@ -5,7 +5,11 @@ Import ListNotations.
 Require Import Grist.Model.Deps Grist.Model.DepsSpec Grist.Model.DepsExec.
 Require Import Grist.Proofs.DepsSpec_proofs Grist.Proofs.Deps_closure_proofs Grist.Proofs.Deps_inval_proofs
                Grist.Proofs.Deps_order_proofs Grist.Proofs.Deps_rel_proofs Grist.Proofs.Deps_refine_proofs
-               Grist.Proofs.Deps_examples Grist.Proofs.Deps_schema_proofs Grist.Proofs.Deps_eval_proofs.
+               Grist.Proofs.Deps_examples Grist.Proofs.Deps_schema_proofs Grist.Proofs.Deps_eval_proofs
+               Grist.Proofs.Deps_eval_lazy_proofs Grist.Proofs.Deps_term_proofs Grist.Proofs.Deps_sched_proofs
+               Grist.Proofs.Deps_lookup_proofs Grist.Proofs.Deps_lookup_step_proofs
+               Grist.Proofs.Deps_sched_rank_proofs.
+Require Grist.Model.DepsLookup.
 Require Grist.Model.DepsEval.
 Open Scope Z_scope.
 
@@ -85,13 +89,10 @@ Theorem C05_eval_step_refines_partial :
             (to_state (fst (DepsEval.eval_exec v g c t lks)) f (snd (DepsEval.eval_exec v g c t lks))).
 Proof. exact Deps_eval_proofs.eval_exec_ok. Qed.
 
-(* NOT PROVED (kept as a statement): the same with the lazily tracked lookup reads.  [guardedL]: the reader
-   observes "key of the lookup-map cell = k" and (row, k) is registered in the lookup relation.  Missing: the
-   executable model of the evaluation of a lookup-map cell with its post-invalidation
-   (invalidate_affected_keys + closure) and the proof that it meets eval_ok.v_guard; the pieces are
-   C05_lookup_guard_sound and C05_reset_rows_keeps_other_rows. *)
-Definition guardedL (s : state) (c d : cell) (p : Z -> Z) : Prop :=
-  exists k, (forall z, p z = if Z.eqb z k then 1 else 0) /\ In (snd c, k) (lkrows (rst s) (fst d) (fst c)).
+(* The same with the lazily tracked lookup reads ([guardedL]: the reader observes "key of the lookup-map cell = k"
+   and (row, k) is registered in the lookup relation), for every cell that is not itself an observed lookup-map
+   cell.  PROVED (this was the statement C05_eval_step_refines_statement). *)
+Definition guardedL := Deps_eval_lazy_proofs.guardedL.
 
 Definition C05_eval_step_refines_statement : Prop :=
   forall v f g c t lks l,
@@ -106,6 +107,133 @@ Definition C05_eval_step_refines_statement : Prop :=
            (trace v t) ->
     eval_ok guardedL (to_state v f g) c t
             (to_state (fst (DepsEval.eval_exec v g c t lks)) f (snd (DepsEval.eval_exec v g c t lks))).
+
+Theorem C05_eval_step_refines : C05_eval_step_refines_statement.
+Proof. exact Deps_eval_lazy_proofs.eval_exec_lazy_ok. Qed.
+
+(* The evaluation step of a lookup-map cell itself (Model/DepsLookup.v: the key is recomputed and stored in the
+   index; if it changed, the rows registered under the old or the new key are invalidated with include_self
+   and the invalidation is closed under the recorded edges) is a step the kernel accepts, with the lazily
+   tracked reads [guardedL]: an observer that is still clean afterwards sees no change of "key = k". *)
+Theorem C05_lookup_cell_step_refines :
+  forall fuel v f g c t refs l v' g',
+    f c = Some t -> g_map g (fst c) = Some (Rows l) -> in_map (g_map g) c = true ->
+    Forall (fun a => f (acell a) <> None -> in_map (g_map g) (acell a) = false) (trace v t) ->
+    owner_ok (g_edges g) -> (forall e, In e (g_edges g) -> DepsEval.head_look (e_rel e) = true) ->
+    lkkeys (g_rel g) (fst c) (snd c) = [v c] ->
+    Forall (fun a => DepsEval.no_look (snd (fst a)) = true /\
+                     covers (g_rel g) (snd (fst a)) (snd (acell a)) (snd c) = true) (trace v t) ->
+    (forall n r k0, In (r, k0) (lkrows (g_rel g) (fst c) n) -> In n refs) ->
+    DepsLookup.eval_lookup_exec fuel v g c t refs = Some (v', g') ->
+    eval_ok guardedL (to_state v f g) c t (to_state v' f g').
+Proof. exact Deps_lookup_step_proofs.eval_lookup_ok. Qed.
+
+(* lookup map 20 indexes target row 3 under key 77; row 1 of node 2 looked up 77; the key column cell (5,3) now
+   holds 78: re-evaluating (20,3) stores 78 and invalidates the reader *)
+Example C05_ex_lookup_cell_step :
+  let R := mkR (fun _ _ => []) (fun m n => if Z.eqb m 20 && Z.eqb n 2 then [(1, 77)] else [])
+               (fun m t => if Z.eqb m 20 && Z.eqb t 3 then [77] else []) in
+  let g := mkG [(20, 5, RId); (2, 20, RLook 20 2)] R (fun n => if Z.eqb n 20 then Some (Rows [3]) else None) [] in
+  let v := fun c : cell => if cell_eqb c (20, 3) then 77 else if cell_eqb c (5, 3) then 78 else 0 in
+  match DepsLookup.eval_lookup_exec 20 v g (20, 3) (Read (5, 3) RId (fun x => x) (fun x => Ret x)) [2] with
+  | Some (v', g') => v' (20, 3) = 78 /\ in_map (g_map g') (2, 1) = true /\ in_map (g_map g') (20, 3) = false /\
+                     lkkeys (g_rel g') 20 3 = [78]
+  | None => False
+  end.
+Proof. cbn. repeat split; reflexivity. Qed.
+
+(* Termination of the invalidate_deps worklist: with fuel_bound = 3 + |E| + |NS| (|RS|+1) (1+|E|) it never runs out,
+   where NS contains the start node and the out_nodes of the edges and RS is a row list closed under the relations *)
+Theorem C05_invalidate_deps_terminates :
+  forall g n x inc NS RS,
+    (forall e, In e (g_edges g) -> In (e_out e) NS) -> In n NS ->
+    (forall e q r, In e (g_edges g) -> In q RS -> In r (aff_l (g_rel g) (e_rel e) [q]) -> In r RS) ->
+    (x = AllRows \/ exists l, x = Rows l /\ incl l RS) ->
+    exists g', invalidate_deps (Deps_term_proofs.fuel_bound (g_edges g) NS RS) g n x inc = Some g'.
+Proof. exact Deps_term_proofs.invalidate_deps_terminates. Qed.
+
+(* so the specification of invalidate_deps is no longer conditional on the fuel *)
+Theorem C05_invalidate_deps_total :
+  forall g n x inc NS RS,
+    owner_ok (g_edges g) ->
+    (forall e, In e (g_edges g) -> In (e_out e) NS) -> In n NS ->
+    (forall e q r, In e (g_edges g) -> In q RS -> In r (aff_l (g_rel g) (e_rel e) [q]) -> In r RS) ->
+    (x = AllRows \/ exists l, x = Rows l /\ incl l RS) ->
+    exists g', invalidate_deps (Deps_term_proofs.fuel_bound (g_edges g) NS RS) g n x inc = Some g' /\
+      mono (g_map g) (g_map g') /\
+      (if inc then batch_in (g_map g') (n, x) else closed_batch (g_edges g) (g_rel g) (g_map g') n x) /\
+      new_closed (g_edges g) (g_rel g) (RBi (g_edges g) (g_rel g) n x inc) (g_map g) (g_map g').
+Proof.
+  intros g n x inc NS RS Ho H1 H2 H3 H4.
+  destruct (Deps_term_proofs.invalidate_deps_terminates g n x inc NS RS H1 H2 H3 H4) as [g' Hg].
+  exists g'. split; [exact Hg |]. exact (invalidate_deps_spec _ _ _ _ _ _ Ho Hg).
+Qed.
+
+Example C05_ex_terminates :
+  exists g', invalidate_deps (Deps_term_proofs.fuel_bound (g_edges Deps_examples.ex_g) [1; 2] [1])
+                             Deps_examples.ex_g 1 (Rows [1]) false = Some g'.
+Proof.
+  apply Deps_term_proofs.invalidate_deps_terminates.
+  - intros e [<- | []]. right. left. reflexivity.
+  - left. reflexivity.
+  - intros e q r [<- | []] [<- | []] H. cbn in H. destruct H as [<- | []]. left. reflexivity.
+  - right. exists [1]. split; [reflexivity | intros r H; exact H].
+Qed.
+
+(* Deps meets the scheduler: the update loop seen as "repeatedly pick a dirty formula cell whose reads are clean
+   and evaluate it" (any order of picks).  Progress, termination (at most as many picks as dirty formula cells),
+   and: it can only stop at quiescence, where the values are the scratch values. *)
+Theorem C05_progress :
+  forall s rank, acyclic (fml s) rank ->
+    forall c, fml s c <> None -> dirty s c = true -> exists c', Deps_sched_proofs.ready s c'.
+Proof. exact Deps_sched_proofs.progress. Qed.
+
+Theorem C05_any_interleaving_bounded :
+  forall guarded U k s s', Deps_sched_proofs.within U s -> Deps_sched_proofs.run guarded k s s' ->
+    (k + Deps_sched_proofs.ndirty U s' <= Deps_sched_proofs.ndirty U s)%nat /\ Deps_sched_proofs.within U s'.
+Proof. exact Deps_sched_proofs.run_bounded. Qed.
+
+Theorem C05_any_interleaving_reaches_scratch :
+  forall guarded U k s s' rank,
+    consistent guarded s -> acyclic (fml s) rank -> Deps_sched_proofs.within U s ->
+    Deps_sched_proofs.run guarded k s s' -> (forall c, ~ Deps_sched_proofs.ready s' c) ->
+    (k <= Deps_sched_proofs.ndirty U s)%nat /\ quiescent s' /\
+    forall c fuel, (rank c < fuel)%nat -> val s' c = scratch fuel (fml s') (val s') c.
+Proof. exact Deps_sched_proofs.any_interleaving_reaches_scratch. Qed.
+
+Example C05_ex_sched :
+  Deps_sched_proofs.ready Deps_examples.ex_s1 (2, 1) /\
+  Deps_sched_proofs.pick Deps_examples.noguard Deps_examples.ex_s1 Deps_examples.ex_s2 /\
+  Deps_sched_proofs.within [(2, 1)] Deps_examples.ex_s1 /\ (forall c, ~ Deps_sched_proofs.ready Deps_examples.ex_s2 c).
+Proof.
+  split; [| split; [| split]].
+  - exists Deps_examples.ex_t. split; [reflexivity | split; [reflexivity |]].
+    constructor; [| constructor]. intros H. exfalso. apply H. reflexivity.
+  - exists (2, 1), Deps_examples.ex_t. split; [exact Deps_examples.ex_eval | split; [reflexivity |]].
+    intros x H. discriminate H.
+  - intros c _ H. apply Deps_examples.ex_dirty1 in H. subst. left. reflexivity.
+  - intros c (t & _ & H & _). discriminate H.
+Qed.
+
+(* the same when a pick may also mark cells dirty (post-invalidation by a re-evaluated lookup-map cell), provided
+   those cells have a strictly higher rank than the evaluated one (they read it): with U the formula cells, K a
+   bound of their ranks and weight = sum over dirty cells of (|U|+1)^(K - rank), every interleaving has at most
+   [weight s] picks, can only stop at quiescence, and then holds the scratch values *)
+Theorem C05_any_interleaving_with_post_invalidation_bounded :
+  forall guarded rank U K, (forall u, In u U -> (rank u <= K)%nat) ->
+  forall k s s', Deps_sched_proofs.within U s -> Deps_sched_rank_proofs.run_r guarded rank U k s s' ->
+    (k + Deps_sched_rank_proofs.weight rank U K s' <= Deps_sched_rank_proofs.weight rank U K s)%nat /\
+    Deps_sched_proofs.within U s'.
+Proof. exact Deps_sched_rank_proofs.run_r_bounded. Qed.
+
+Theorem C05_any_interleaving_with_post_invalidation_reaches_scratch :
+  forall guarded rank U K, (forall u, In u U -> (rank u <= K)%nat) ->
+  forall k s s',
+    consistent guarded s -> acyclic (fml s) rank -> Deps_sched_proofs.within U s ->
+    Deps_sched_rank_proofs.run_r guarded rank U k s s' -> (forall c, ~ Deps_sched_proofs.ready s' c) ->
+    (k <= Deps_sched_rank_proofs.weight rank U K s)%nat /\ quiescent s' /\
+    forall c fuel, (rank c < fuel)%nat -> val s' c = scratch fuel (fml s') (val s') c.
+Proof. exact Deps_sched_rank_proofs.any_interleaving_with_post_invalidation_reaches_scratch. Qed.
 
 (* Relation soundness *)
 Theorem C05_reference_relation_sound :
